@@ -37,13 +37,13 @@ ASSUMPTIONS = [
     "the derivation-count check enumerates to depth 3 and skips grammars with more than 300 trees on one side (counted in coverage)",
 ]
 
-def run_model_sharded(cf, values, coq_sample, seed, tag, shard):
+def run_model_sharded(cf, values, coq_sample, seed, tag, shard, max_bad=12):
     """core.run_model with small shards: the grammar cases are large terms, so the in-kernel
     re-evaluation is split over several coqc processes.  Bulk through the extracted driver, a sample
     and every non-zero verdict re-evaluated by vm_compute; both must agree."""
     codes = run_ocaml(cf, values)
     rng = random.Random(seed * 7919 + 13)
-    bad = [i for i in range(len(values)) if codes[i] != 0][:12]
+    bad = [i for i in range(len(values)) if codes[i] != 0][:max_bad]
     rest = [i for i in range(len(values)) if codes[i] == 0]
     rng.shuffle(rest)
     pick = sorted(set(bad + rest[:coq_sample]))
@@ -164,7 +164,7 @@ def observe(ps):
 NT_NAMES_1 = ["S", "X", "X,Y", "A", "<S,S>"]
 NT_NAMES_2 = ["S", "Y,Z", "Z", "Y", "B", "X"]
 T_NAMES = ["t", "u", "<X,Y>", "<S,S>", "<X,Y,Z>", "<X,Y,Z>_1", "<S,S>_1", "X", "Z", "α"]
-TYPES = [[], [0], [0, 0], [0, 1], [1]]
+TYPES = [[], [0], [0, 0], [0, 1], [1], [0, 0]]
 SLOT_IDS = ["e2", "e10", "e1", "x", "e", "E3"]
 
 def gen_pair(rng, force=None):
@@ -222,7 +222,9 @@ def gen_pair(rng, force=None):
         lt = ts[0] if k == 0 or rng.random() < 0.5 else rng.choice(ts)
         nodes = []; ext = []
         for nl in lt:
-            nodes.append(nl); ext.append(len(nodes) - 1)
+            same = [e for e in ext if nodes[e] == nl]
+            if same and rng.random() < 0.1: ext.append(rng.choice(same)); feats.add("repeated_ext_node")
+            else: nodes.append(nl); ext.append(len(nodes) - 1)
         for _ in range(rng.randint(0, 2)): nodes.append(rng.choice([0, 0, 1]))
         slots = []
         nslots = rng.choice([0, 0, 1, 1, 2, 2]) if k > 0 else rng.choice([0, 1, 1, 2])
@@ -285,8 +287,10 @@ def gen_pair(rng, force=None):
             for _ in range(rng.choice([1, 1, 2, 3])):
                 variant = None
                 if rng.random() < 0.15:
-                    variant = rng.choice(["extra_node", "node_label", "drop_slot", "slot_att", "slot_id", "ext_swap", "ext_move", "ext_move"])
+                    variant = rng.choice(["extra_node", "node_label", "drop_slot", "slot_att", "slot_att", "slot_id", "ext_swap", "ext_move", "ext_move"])
                     feats.add("near_miss")
+                elif len(ext) >= 2 and ext[0] != ext[1] and nodes[ext[0]] == nodes[ext[1]] and rng.random() < 0.3:
+                    variant = "ext_swap"; feats.add("near_miss"); feats.add("ext_permuted")
                 r = inst(els, side, variant)
                 if r is not None:
                     rules.append(r)
@@ -340,8 +344,8 @@ def run(tier, seed):
     import fggs
     rng = random.Random(seed)
     violations = []
-    n_pairs = 300 if tier == "quick" else 4000
-    n_uln = 1500 if tier == "quick" else 20000
+    n_pairs = 300 if tier == "quick" else 8000
+    n_uln = 1500 if tier == "quick" else 40000
     # ---- unique_label_name
     uvals, ucases = [], []
     for i in range(n_uln):
@@ -356,13 +360,18 @@ def run(tier, seed):
                                         call="fggs.utils.unique_label_name", corr="corr:uln")); continue
         uvals.append(([ord(c) for c in name], [[ord(c) for c in n] for n in names], [ord(c) for c in out]))
         ucases.append((name, names, out))
-    ucodes, nk1 = run_model(ULN, uvals, seed=seed, tag="c17uln")
-    for (name, names, out), c in zip(ucases, ucodes):
+    from concurrent.futures import ThreadPoolExecutor
+    pool = ThreadPoolExecutor(4)        # the four model evaluations run side by side (they are subprocesses)
+    fut_u = pool.submit(run_model_sharded, ULN, uvals, 20 if tier == "quick" else 200, seed, "c17uln", 20)
+    def after_uln():
+      ucodes, nk1 = fut_u.result()
+      for (name, names, out), c in zip(ucases, ucodes):
         if c:
             violations.append(Violation("unique_label_name: " + ("result is not the first free name among name, name_1, ... (verified oracle unique_ok)" if c == 1 else "differs from model (code %d)" % c),
                                         case=dict(kind="uln", name=name, names=names), observed=out, oracle="unique_ok" if c == 1 else None,
                                         corr="C17_unique_name / corr:uln", failing_input_found=(c == 1),
                                         call="fggs.utils.unique_label_name(name, labels)"))
+      return nk1
     # ---- grammar pairs
     forced = ["clash", "tconflict", "tname", "dup", "tnt", "clash", "tconflict", "tname"]
     defect_stream = ["sharedtid", "implicit", "self"]
@@ -388,12 +397,15 @@ def run(tier, seed):
         info.append((ps, ob))
         nvals.append((ob["w1"], ob["w2"], ob["ntm"]))
         cvals.append((ob["w1"], ob["w2"], ob["ntm"], ob["code"], ob["out"]))
-    ns = 16 if tier == "quick" else 48
-    ncodes, nk2 = run_model_sharded(NTP, nvals, ns, seed, "c17ntp", 4)
-    ccodes, nk3 = run_model_sharded(CONJ, cvals, ns, seed, "c17conj", 4)
+    ns, sh, mb = (6, 5, 4) if tier == "quick" else (48, 4, 24)    # kernel sample, shard size, non-zero verdicts re-evaluated
     kidx = [i for i, (ps, ob) in enumerate(info) if ob["out"] is not None]
     kvals = [(info[i][1]["w1"], info[i][1]["w2"], info[i][1]["out"], 3, CAP) for i in kidx]
-    kcodes, nk4 = run_model_sharded(CNT, kvals, ns, seed, "c17cnt", 4)
+    fut_n = pool.submit(run_model_sharded, NTP, nvals, ns, seed, "c17ntp", sh, mb)
+    fut_c = pool.submit(run_model_sharded, CONJ, cvals, ns, seed, "c17conj", sh, mb)
+    fut_k = pool.submit(run_model_sharded, CNT, kvals, ns, seed, "c17cnt", sh, mb)
+    nk1 = after_uln()
+    ncodes, nk2 = fut_n.result(); ccodes, nk3 = fut_c.result(); kcodes, nk4 = fut_k.result()
+    pool.shutdown()
     outcomes = {}
     for (ps, ob), c in zip(info, ncodes):
         if c:
